@@ -209,6 +209,46 @@ func Harness_C06_OrderUnknown(format int) {
 	verif.Cover("decoded")
 }
 
+// Harness_C06_Includes: two records that include the same record (which
+// itself includes another): each reports exactly its own and its inherited
+// missing fields.
+func Harness_C06_Includes(format int) {
+	d := c06Doc{json: format == 0}
+	which := verif.Choose(2) // 0 Alpha, 1 Beta
+	own := "a1"
+	if which == 1 {
+		own = "p1"
+	}
+	names := []string{"b1", "b2", "m1", own}
+	var fields, want []string
+	for _, n := range names {
+		if verif.Bool() {
+			fields = append(fields, d.kv(n, d.str("v")))
+		} else {
+			want = append(want, n)
+		}
+	}
+	doc := d.obj(fields)
+	var err error
+	if which == 0 {
+		err = new(vt.Alpha).UnmarshalRestLi(c06Reader(d.json, doc))
+	} else {
+		err = new(vt.Beta).UnmarshalRestLi(c06Reader(d.json, doc))
+	}
+	sort.Strings(want)
+	if len(want) == 0 {
+		verif.Assert(err == nil, "a complete document was rejected: "+doc)
+		verif.Cover("complete")
+		return
+	}
+	mf, ok := err.(*restlicodec.MissingRequiredFieldsError)
+	verif.Assert(ok, "missing fields not reported for "+doc)
+	got := append([]string(nil), mf.Fields...)
+	sort.Strings(got)
+	verif.Assert(strings.Join(got, " ") == strings.Join(want, " "), "missing set is ["+strings.Join(got, " ")+"] want ["+strings.Join(want, " ")+"] for "+doc)
+	verif.Cover("missing-reported")
+}
+
 // Harness_C06_Null: a JSON null member counts as absent.
 func Harness_C06_Null() {
 	nullTop, nullW := verif.Bool(), verif.Bool()
